@@ -285,3 +285,123 @@ func cmpShape(info *types.Info, lit *ast.FuncLit) bool {
 	}
 	return chk(l[0], token.LSS, -1) && chk(l[1], token.GTR, 1) && retConst(l[2], 0)
 }
+
+// ruleCtiArity: a container method registered with n operands (receiver included) is
+// implemented by a function that uses each of v[0] .. v[n-1] and nothing beyond.
+func ruleCtiArity(c *Ctx, rule string) {
+	pk := c.P.Pkg("xreflect")
+	info := pk.TypesInfo
+	fd := c.P.Func("xreflect.Universe.addTypeMethodsCTI")
+	if fd == nil {
+		c.Ob(rule, "xreflect.Universe.addTypeMethodsCTI", nil, false, "anchor function not found")
+		return
+	}
+	di := buildDefIndex(info, fd)
+	arity := func(e ast.Expr) int {
+		e = unparen(e)
+		if id := identOf(e); id != nil {
+			if d := di.single(info.Uses[id]); d != nil {
+				e = unparen(d)
+			}
+		}
+		if cl, ok := e.(*ast.CompositeLit); ok {
+			return len(cl.Elts)
+		}
+		return -1
+	}
+	n := 0
+	ast.Inspect(fd.Body, func(nd ast.Node) bool {
+		cl, ok := nd.(*ast.CaseClause)
+		if !ok || len(cl.List) != 1 {
+			return true
+		}
+		name, isStr := constString(info, cl.List[0])
+		if !isStr {
+			return true
+		}
+		inspectCalls(cl, func(call *ast.CallExpr) {
+			if funcFullName(calleeOf(info, call)) != "reflect.MakeFunc" || len(call.Args) != 2 {
+				return
+			}
+			ft, ok := unparen(call.Args[0]).(*ast.CallExpr)
+			if !ok || funcFullName(calleeOf(info, ft)) != "reflect.FuncOf" || len(ft.Args) != 3 {
+				return
+			}
+			ar := arity(ft.Args[0])
+			impl := calleeOrFuncValue(info, call.Args[1])
+			if ar < 0 || impl == nil {
+				return
+			}
+			ifd := c.P.Func(funcFullName(impl))
+			if ifd == nil || len(ifd.Type.Params.List) != 1 || len(ifd.Type.Params.List[0].Names) != 1 {
+				return
+			}
+			n++
+			vobj := info.Defs[ifd.Type.Params.List[0].Names[0]]
+			used := map[int64]bool{}
+			whole := false
+			ast.Inspect(ifd.Body, func(m ast.Node) bool {
+				switch x := m.(type) {
+				case *ast.IndexExpr:
+					if identOf(x.X) != nil && info.Uses[identOf(x.X)] == vobj {
+						if v, ok := constInt(info, x.Index); ok {
+							used[v] = true
+						} else {
+							whole = true
+						}
+					}
+				case *ast.SliceExpr, *ast.RangeStmt:
+					whole = true // v[1:], range v: all operands are forwarded
+				case *ast.CallExpr:
+					for _, a := range x.Args {
+						if identOf(a) != nil && info.Uses[identOf(a)] == vobj {
+							whole = true
+						}
+					}
+				}
+				return true
+			})
+			okA := true
+			var missing []int
+			if !whole {
+				for i := 0; i < ar; i++ {
+					if !used[int64(i)] {
+						okA = false
+						missing = append(missing, i)
+					}
+				}
+			}
+			for i := range used {
+				if int(i) >= ar {
+					okA = false
+				}
+			}
+			c.Ob(rule, "xreflect.cti/"+name+"->"+impl.Name(), cl, okA, fmt.Sprintf("method %s is registered with %d operands (receiver included); %s uses operands %v (unused: %v)", name, ar, impl.Name(), sortedInt64(used), missing))
+		})
+		return true
+	})
+	if n < 10 {
+		c.Ob(rule, "xreflect.Universe.addTypeMethodsCTI", fd, false, "fewer than 10 container method registrations recognised: anchor missing")
+	}
+}
+
+func calleeOrFuncValue(info *types.Info, e ast.Expr) *types.Func {
+	switch x := unparen(e).(type) {
+	case *ast.Ident:
+		fn, _ := info.Uses[x].(*types.Func)
+		return fn
+	case *ast.SelectorExpr:
+		fn, _ := info.Uses[x.Sel].(*types.Func)
+		return fn
+	}
+	return nil
+}
+
+func sortedInt64(m map[int64]bool) []int64 {
+	var l []int64
+	for k := range m {
+		l = append(l, k)
+	}
+	sort.Slice(l, func(i, j int) bool { return l[i] < l[j] })
+	return l
+}
